@@ -26,6 +26,9 @@ PROPS["C08"] = {
          "checks": {"quick": 20000, "thorough": 200000}, "shards": {"quick": 2, "thorough": 16}},
         {"name": "C08Run", "pkg": CC, "test": "TestVerifC08Run", "kind": "rapid",
          "checks": {"quick": 3000, "thorough": 50000}, "shards": {"quick": 2, "thorough": 8}},
+        # executed runs with the in-process connect-go and grpc-go peers: the outcome map has exactly the selected names, marker components included
+        {"name": "C08Exec", "pkg": CC, "test": "TestVerifC08Exec", "kind": "rapid",
+         "checks": {"quick": 25, "thorough": 600}, "shards": {"quick": 3, "thorough": 8}, "timeout": {"quick": 600, "thorough": 3600}},
         {"name": "C08Args", "pkg": MAIN, "test": "TestVerifC08Args", "kind": "rapid",
          "checks": {"quick": 3000, "thorough": 100000}, "shards": {"quick": 1, "thorough": 4}},
         {"name": "C08CLI", "pkg": MAIN, "test": "TestVerifC08CLI", "kind": "rapid",
@@ -346,6 +349,8 @@ PROPS["C10"] = {
         # the client is a real OS process (runCommand / os-exec pipes), exits early or answers garbage
         {"name": "C10Process", "pkg": CC, "test": "TestVerifC10Process", "kind": "enum", "shards": {"quick": 4, "thorough": 4}, "timeout": 600},
         {"name": "C10DuplicateSend", "pkg": CC, "test": "TestVerifC10DuplicateSend", "kind": "enum"},
+        # an answer of exactly the largest accepted size (16 MiB) / one byte more
+        {"name": "C10AtLimit", "pkg": CC, "test": "TestVerifC10AtLimit", "kind": "enum"},
         {"name": "C10Multiplexer", "pkg": CC, "test": "TestVerifC10Multiplexer", "kind": "rapid", "race": {"quick": False, "thorough": True},
          "checks": {"quick": 5000, "thorough": 12000}, "shards": {"quick": 4, "thorough": 16}, "timeout": {"quick": 900, "thorough": 5400}},
     ],
